@@ -49,6 +49,10 @@ TARGETS = [
     ("perm_linearizer_identity", "permutation/proverkey.rs", "compute_linearizer_identity_range_check", 0),
     ("perm_linearizer_copy", "permutation/proverkey.rs", "compute_linearizer_copy_range_check", 0),
     ("perm_verifier", "permutation/verifierkey.rs", "compute_linearization_commitment", 0),
+    # proof.rs: the quotient terms of [D] (and the ORDER of the widget calls), r_0 of both verification routes
+    ("verify_lin_terms", "../proof.rs", "append_linearization_commitment_terms", 0),
+    ("verify_r0", "../proof.rs", "verify", 0, "r_0_eval"),
+    ("verify_legacy_r0", "../proof.rs", "verify_legacy", 0, "r_0_eval"),
 ]
 # calls to these Rust functions are translated to calls of the Lean translation of the named target
 CALLS = {
@@ -56,6 +60,7 @@ CALLS = {
     "logic": {"delta": "logic_delta", "delta_xor_and": "logic_delta_xor_and"},
     "fixed": {"extract_bit": "fixed_extract_bit", "check_bit_consistency": "fixed_check_bit_consistency"},
     "arith": {}, "var": {},
+    "verify": {},
     "perm": {"compute_quotient_identity_range_check_i": "perm_quotient_identity_i",
              "compute_quotient_copy_range_check_i": "perm_quotient_copy_i",
              "compute_quotient_term_check_one_i": "perm_quotient_one_i"},
@@ -273,6 +278,7 @@ class Parser:
 
 
 NEEDS_D = set()
+CALL_ORDER = {}
 
 
 def split_statements(body):
@@ -380,6 +386,12 @@ def translate_fn(lean_name, params, body, calls):
                 raise TranslateError("%s: trailing tokens in `%s`" % (lean_name, st[:60]))
             pushes.append((m.group(1), e))
             continue
+        m = re.match(r"([a-z_]+)\s*\.\s*([a-z_]+)\s*\.\s*compute_linearization_commitment\s*\(", st)
+        if m and not is_ret:                      # a widget call: only its position in the sequence is recorded
+            if pushes:
+                raise TranslateError("%s: widget call after the first push" % lean_name)
+            CALL_ORDER.setdefault(lean_name, []).append(m.group(2))
+            continue
         if is_ret:
             p = Parser(tokenize(st), calls, bound, free)
             ret = p.expr()
@@ -435,11 +447,21 @@ def translate_fn(lean_name, params, body, calls):
 def main():
     repo, out = sys.argv[1], sys.argv[2]
     chunks, sigs = [], []
-    for (lean_name, rel, fn, occ) in TARGETS:
-        path = os.path.join(repo, WIDGET, rel)
+    for tgt in TARGETS:
+        (lean_name, rel, fn, occ) = tgt[:4]
+        path = os.path.normpath(os.path.join(repo, WIDGET, rel))
         src = strip_comments(open(path).read())
         params, body = find_fn(src, fn, occ)
+        if len(tgt) == 5:        # a single `let NAME = EXPR;` of that function
+            sts = [x for x in split_statements(body) if re.match(r"let\s+(mut\s+)?%s\b" % tgt[4], x)]
+            if len(sts) != 1:
+                raise TranslateError("%s: expected exactly one `let %s` in %s" % (lean_name, tgt[4], fn))
+            body = sts[0].split("=", 1)[1].replace("@RET", "")
+            params = ""
         text, ps = translate_fn(lean_name, params, body, CALLS[lean_name.split("_")[0]])
+        if lean_name in CALL_ORDER:
+            text += "\n\n/-- the widget calls of `%s`, in source order -/\ndef %s_calls : List String := [%s]" % (
+                fn, lean_name, ", ".join('"%s"' % c for c in CALL_ORDER[lean_name]))
         chunks.append("/-- `%s::%s` (%s) -/\n%s" % (rel, fn, WIDGET, text))
         sigs.append("-- %s : %s" % (lean_name, " ".join(ps)))
     hdr = ("/- GENERATED by tools/rs2lean.py from %s/*/{proverkey,verifierkey}.rs of /repo — do not edit.\n"
